@@ -158,7 +158,7 @@ Qed.
 
 (* pending generations carry objects of this context *)
 Definition pending_ok (x : ctx) : Prop :=
-  forall tok f v, nfind tok (pending x) = Some (f, v) -> exists g n, v = Gen (cid x) g n.
+  forall tok f v k, nfind tok (pending x) = Some (f, v, k) -> exists g n, v = Gen (cid x) g n.
 
 Lemma nfind_nins_inv {V} k (v : V) l k' v' :
   nfind k' (nins k v l) = Some v' -> (k' = k /\ v' = v) \/ nfind k' l = Some v'.
@@ -230,7 +230,7 @@ Proof.
 Qed.
 
 Lemma pending_ok_same x y : pending y = pending x -> cid y = cid x -> pending_ok x -> pending_ok y.
-Proof. intros Hp Hc P tok f v H. rewrite Hp in H. rewrite Hc. eauto. Qed.
+Proof. intros Hp Hc P tok f v k H. rewrite Hp in H. rewrite Hc. eauto. Qed.
 
 Lemma local_step_inv a x : ctx_inv x -> pending_ok x ->
   ctx_inv (fst (local_step a x)) /\ pending_ok (fst (local_step a x)).
@@ -256,18 +256,18 @@ Proof.
            | eapply pending_ok_same; [| | exact P]; reflexivity
            | idtac ] ]).
   - (* a lookup suspends in its factory *)
-    intros tk g w Hf. cbn [pending add_pending set_pending cid set_calls set_next] in *.
+    intros tk g w kk Hf. cbn [pending add_pending set_pending cid set_calls set_next] in *.
     apply nfind_nins_inv in Hf. destruct Hf as [[_ E]|Hf]; [inversion E; subst; eauto | eapply P; eauto].
   - (* the suspended lookup completes *)
-    match goal with H : nfind _ (pending x) = Some _ |- _ => destruct (P _ _ _ H) as (g & n & ->) end.
+    match goal with H : nfind _ (pending x) = Some _ |- _ => destruct (P _ _ _ _ H) as (g & n & ->) end.
     apply SGI; reflexivity.
-  - apply PSG. intros tk g' w Hf. cbn [pending del_pending set_pending cid] in *.
+  - apply PSG. intros tk g' w kk Hf. cbn [pending del_pending set_pending cid] in *.
     apply nfind_ndel_inv in Hf. eapply P; eauto.
 Qed.
 
 Lemma snapshot_inv i p : ctx_inv p -> ctx_inv (snapshot i p) /\ pending_ok (snapshot i p).
 Proof.
-  intros [I1 I2 I3 I4 I5 I6]. split; [|intros tok f v H; discriminate].
+  intros [I1 I2 I3 I4 I5 I6]. split; [|intros tok f v kk H; discriminate].
   constructor; cbn [res facs cid snapshot]; auto.
   - now apply filter_NoDup.
   - intros k c Hk. pose proof (find_filter_NoDup _ _ _ _ I1 Hk) as Hk'.
@@ -282,7 +282,7 @@ Qed.
 
 Lemma root_inv i : ctx_inv (root_ctx i) /\ pending_ok (root_ctx i).
 Proof.
-  split; [|intros tok f v H; discriminate].
+  split; [|intros tok f v kk H; discriminate].
   constructor; simpl; try constructor; intros; discriminate.
 Qed.
 
@@ -391,7 +391,7 @@ Proof.
   destruct (inv_fac_coh x I _ _ F) as [A _]. simpl in A. subst name. split.
   - intros t' Ht' Hfree.
     destruct (store_generated_binds (set_calls (set_next x (S (next_local x)))
-                 (nins (fid f) (S (count (fid f) (calls x))) (calls x))) f
+                 (ins (fkey f) (S (count (fkey f) (calls x))) (calls x))) f
                  (Gen (cid x) (fid f) (next_local x)) t') as (c & Hc & Hv & _).
     + unfold free_types. apply filter_In. split; auto. apply negb_true_iff. now apply taken_false_find.
     + eauto.
